@@ -257,3 +257,92 @@ MUTANTS += [
     {"name": "shape:validators-keyword-table-etag-from-request", "expect": "R11.4", "edits": [(RS, _MC_IRM, "            validators = {\"etag\": environ.get(\"HTTP_IF_NONE_MATCH\"), \"data\": None, \"last_modified\": self.headers.get(\"last-modified\")}\n            if not is206 and not is_resource_modified(environ, **validators):\n")]},
     {"name": "shape:request-headers-keyword-table-crossed", "expect": "R11.1", "edits": [(HT, _WRAP_CALL, _wrap_table(_WRAP_NAMES.replace('("if_match", "if_match")', '("if_match", "if_none_match")')))]},
 ]
+
+# ---- round 3b: flags holding the truth of a test (bound before / between the nested ifs), guards split and merged ----
+_MC_206 = "            is206 = self._process_range_request(environ, complete_length, accept_ranges)\n"
+_MC_BLOCK = _MC_206 + _MC_IRM + _MC_STATUS
+_MC_GATE = "        if environ[\"REQUEST_METHOD\"] in (\"GET\", \"HEAD\"):\n            # if the date"
+_PR_GUARD = (
+    "        if (\n            not accept_ranges\n            or complete_length is None\n            or complete_length == 0\n"
+    "            or not self._is_range_request_processable(environ)\n        ):\n            return False\n"
+)
+_IRM_ARGS = "                environ,\n                self.headers.get(\"etag\"),\n                None,\n                self.headers.get(\"last-modified\"),\n"
+
+
+def _mc_flags(not_modified: str, if_match: str, test: str, store: str) -> list:
+    """all three verdicts computed into locals first, one test, the status picked by a conditional expression"""
+    return [(RS, _MC_BLOCK, (
+        _MC_206
+        + f"            not_modified = {not_modified}(\n" + _IRM_ARGS + "            )\n"
+        + f"            if_match_sent = {if_match}\n"
+        + f"            if {test}:\n                self.status_code = {store}\n"))]
+
+
+def _mc_nested(unmodified: str, inner: str) -> list:
+    """range processing tested directly, then nested ifs with locals bound between them"""
+    return [(RS, _MC_BLOCK, (
+        "            if not self._process_range_request(environ, complete_length, accept_ranges):\n"
+        f"                unmodified = {unmodified}(\n" + "".join("    " + ln + "\n" for ln in _IRM_ARGS.splitlines()) + "                )\n"
+        "                if unmodified:\n" + inner))]
+
+
+TWINS += [
+    {"name": "shape:verdict-flags-before-one-test", "edits": _mc_flags("not is_resource_modified", "bool(parse_etags(environ.get(\"HTTP_IF_MATCH\")))", "not is206 and not_modified", "412 if if_match_sent else 304")},
+    {"name": "shape:verdict-flags-negated-if-match", "edits": _mc_flags("not is_resource_modified", "not parse_etags(environ.get(\"HTTP_IF_MATCH\"))", "not_modified and not is206", "304 if if_match_sent else 412")},
+    {"name": "shape:verdict-flags-true-if-else-false", "edits": _mc_flags("not is_resource_modified", "True if parse_etags(environ.get(\"HTTP_IF_MATCH\")) else False", "not (is206 or not not_modified)", "412 if if_match_sent else 304")},
+    {"name": "shape:nested-ifs-flag-between", "edits": _mc_nested("not is_resource_modified", "                    precondition_failed = bool(parse_etags(environ.get(\"HTTP_IF_MATCH\")))\n                    if precondition_failed:\n                        self.status_code = 412\n                    else:\n                        self.status_code = 304\n")},
+    {"name": "shape:nested-ifs-header-through-local-walrus", "edits": _mc_nested("not is_resource_modified", "                    raw_if_match = environ.get(\"HTTP_IF_MATCH\")\n                    if (if_match := parse_etags(raw_if_match)):\n                        self.status_code = 412\n                    if not if_match:\n                        self.status_code = 304\n")},
+    {"name": "shape:combined-precondition-flag", "edits": [(RS, _MC_IRM, "            revalidated = not is206 and not is_resource_modified(\n" + _IRM_ARGS + "            )\n            if revalidated:\n")]},
+    {"name": "shape:method-gate-flag", "edits": [(RS, _MC_GATE, "        safe_method = environ[\"REQUEST_METHOD\"] in (\"GET\", \"HEAD\")\n        if safe_method:\n            # if the date")]},
+    {"name": "shape:method-gate-negated-flag-early-exit", "edits": [(RS, _MC_GATE, "        other_method = environ[\"REQUEST_METHOD\"] not in {\"HEAD\", \"GET\"}\n        if not other_method:\n            # if the date")]},
+    {"name": "shape:processable-flag-first", "edits": [(RS, _PR_GUARD, "        processable = self._is_range_request_processable(environ)\n        if not accept_ranges or complete_length is None or complete_length == 0:\n            return False\n        if not processable:\n            return False\n")]},
+    {"name": "shape:processable-positive-nesting-flag", "edits": [(RS, _PR_GUARD, "        sized = bool(accept_ranges) and complete_length is not None and complete_length != 0\n        if not (sized and self._is_range_request_processable(environ)):\n            return False\n")]},
+]
+MUTANTS += [
+    {"name": "shape:verdict-flags-status-swapped", "expect": "R11.4", "edits": _mc_flags("not is_resource_modified", "bool(parse_etags(environ.get(\"HTTP_IF_MATCH\")))", "not is206 and not_modified", "304 if if_match_sent else 412")},
+    {"name": "shape:verdict-flags-negation-not-followed", "expect": "R11.4", "edits": _mc_flags("not is_resource_modified", "not parse_etags(environ.get(\"HTTP_IF_MATCH\"))", "not_modified and not is206", "412 if if_match_sent else 304")},
+    {"name": "shape:verdict-flags-false-if-else-true", "expect": "R11.4", "edits": _mc_flags("not is_resource_modified", "False if parse_etags(environ.get(\"HTTP_IF_MATCH\")) else True", "not is206 and not_modified", "412 if if_match_sent else 304")},
+    {"name": "shape:verdict-flags-modified-polarity-lost", "expect": "R11.4", "edits": _mc_flags("is_resource_modified", "bool(parse_etags(environ.get(\"HTTP_IF_MATCH\")))", "not is206 and not_modified", "412 if if_match_sent else 304")},
+    {"name": "shape:verdict-flags-if-none-match-header", "expect": "R11.4", "edits": _mc_flags("not is_resource_modified", "bool(parse_etags(environ.get(\"HTTP_IF_NONE_MATCH\")))", "not is206 and not_modified", "412 if if_match_sent else 304")},
+    {"name": "shape:nested-ifs-unmodified-polarity-lost", "expect": "R11.4", "edits": _mc_nested("is_resource_modified", "                    precondition_failed = bool(parse_etags(environ.get(\"HTTP_IF_MATCH\")))\n                    if precondition_failed:\n                        self.status_code = 412\n                    else:\n                        self.status_code = 304\n")},
+    {"name": "shape:nested-ifs-flag-sides-swapped", "expect": "R11.4", "edits": _mc_nested("not is_resource_modified", "                    precondition_failed = bool(parse_etags(environ.get(\"HTTP_IF_MATCH\")))\n                    if not precondition_failed:\n                        self.status_code = 412\n                    else:\n                        self.status_code = 304\n")},
+    {"name": "shape:combined-precondition-flag-or", "expect": "R11.4", "edits": [(RS, _MC_IRM, "            revalidated = not is206 or not is_resource_modified(\n" + _IRM_ARGS + "            )\n            if revalidated:\n")]},
+    {"name": "shape:method-gate-flag-admits-post", "expect": "R11.4", "edits": [(RS, _MC_GATE, "        safe_method = environ[\"REQUEST_METHOD\"] in (\"GET\", \"HEAD\", \"POST\")\n        if safe_method:\n            # if the date")]},
+    {"name": "shape:method-gate-negated-flag-polarity-lost", "expect": "R11.4", "edits": [(RS, _MC_GATE, "        other_method = environ[\"REQUEST_METHOD\"] not in {\"HEAD\", \"GET\"}\n        if other_method:\n            # if the date")]},
+    {"name": "shape:processable-flag-computed-not-tested", "expect": "R11.4", "edits": [(RS, _PR_GUARD, "        processable = self._is_range_request_processable(environ)\n        if not accept_ranges or complete_length is None or complete_length == 0:\n            return False\n")]},
+    {"name": "shape:processable-flag-polarity-lost", "expect": "R11.4", "edits": [(RS, _PR_GUARD, "        processable = self._is_range_request_processable(environ)\n        if not accept_ranges or complete_length is None or complete_length == 0:\n            return False\n        if processable:\n            return False\n")]},
+]
+
+TWINS += [
+    {"name": "shape:none-results-flag", "edits": [(RS, "        if range_tuple is None or content_range_header is None:\n", "        unsatisfiable = range_tuple is None or content_range_header is None\n        if unsatisfiable:\n")]},
+    {"name": "shape:parsed-range-flag-is-not-none", "edits": [(RS, "        if parsed_range is None:\n", "        parsed = parsed_range is not None\n        if not parsed:\n")]},
+]
+MUTANTS += [
+    {"name": "shape:none-results-flag-misses-content-range", "expect": "R11.6", "edits": [(RS, "        if range_tuple is None or content_range_header is None:\n", "        unsatisfiable = range_tuple is None\n        if unsatisfiable:\n")]},
+    {"name": "shape:parsed-range-flag-polarity-lost", "expect": "R11.6", "edits": [(RS, "        if parsed_range is None:\n", "        parsed = parsed_range is not None\n        if parsed:\n")]},
+]
+
+_FLAGS = [
+    {"name": "shape:flag:rfl-valid-flag", "edits": [(RG, _RFL_TAIL, "        valid = http.is_byte_range_valid(start, end, length)\n        if valid:\n            return start, min(end, length)\n        return None\n")]},
+    {"name": "shape:flag:wrap-partial-flag", "edits": [(RS, "        if self.status_code == 206:\n            self.response = _RangeWrapper", "        partial = self.status_code == 206\n        if partial:\n            self.response = _RangeWrapper")]},
+    {"name": "shape:flag:rfl-single-flag", "edits": [(RG, "        if self.units != \"bytes\" or length is None or len(self.ranges) != 1:\n", "        single = len(self.ranges) == 1\n        known = length is not None\n        if self.units != \"bytes\" or not known or not single:\n")]},
+    {"name": "shape:flag:rfl-open-ended-flag", "edits": [(RG, "        if end is None:\n            end = length\n", "        open_ended = end is None\n        if open_ended:\n            end = length\n")]},
+    {"name": "shape:flag:ibrv-flags", "edits": [(HT, "    elif start >= stop:  # type: ignore\n        return False\n    return 0 <= start < length\n", "    empty = start >= stop  # type: ignore\n    if empty:\n        return False\n    return 0 <= start < length\n")]},
+    {"name": "shape:flag:inm-flag", "edits": [(SH, "            if if_none_match:\n", "            has_inm = bool(if_none_match)\n            if has_inm:\n")]},
+    {"name": "shape:flag:etag-flag", "edits": [(SH, "    if etag:\n        etag, _ = unquote_etag(etag)\n", "    has_etag = bool(etag)\n    if has_etag:\n        etag, _ = unquote_etag(etag)\n")]},
+    {"name": "shape:flag:date-flag", "edits": [(SH, "    if modified_since and last_modified and last_modified <= modified_since:\n", "    not_newer = bool(modified_since and last_modified and last_modified <= modified_since)\n    if not_newer:\n")]},
+    {"name": "shape:flag:lm-not-none-flag", "edits": [(SH, "    if last_modified is not None:\n        last_modified = _dt_as_utc(", "    has_lm = last_modified is not None\n    if has_lm:\n        last_modified = _dt_as_utc(")]},
+]
+TWINS += _FLAGS
+MUTANTS += [
+    {"name": "shape:flag:rfl-valid-flag-on-clamped-start", "expect": "R11.7", "edits": [(RG, _RFL_TAIL, "        valid = http.is_byte_range_valid(abs(start), end, length)\n        if valid:\n            return start, min(end, length)\n        return None\n")]},
+    {"name": "shape:flag:rfl-valid-flag-ignored", "expect": "R11.7", "edits": [(RG, _RFL_TAIL, "        valid = http.is_byte_range_valid(start, end, length)\n        if valid or end:\n            return start, min(end, length)\n        return None\n")]},
+    {"name": "shape:flag:wrap-partial-flag-any-status-but-416", "expect": "R11.5", "edits": [(RS, "        if self.status_code == 206:\n            self.response = _RangeWrapper", "        partial = self.status_code != 416\n        if partial:\n            self.response = _RangeWrapper")]},
+    {"name": "shape:flag:rfl-single-flag-admits-several", "expect": "R11.7", "edits": [(RG, "        if self.units != \"bytes\" or length is None or len(self.ranges) != 1:\n", "        single = len(self.ranges) >= 1\n        known = length is not None\n        if self.units != \"bytes\" or not known or not single:\n")]},
+    {"name": "shape:flag:rfl-known-flag-not-tested", "expect": "R11.7", "edits": [(RG, "        if self.units != \"bytes\" or length is None or len(self.ranges) != 1:\n", "        single = len(self.ranges) == 1\n        known = length is not None\n        if self.units != \"bytes\" or not single:\n")]},
+    {"name": "shape:flag:ibrv-empty-flag-admits-equal", "expect": "R11.7", "edits": [(HT, "    elif start >= stop:  # type: ignore\n        return False\n    return 0 <= start < length\n", "    empty = start > stop  # type: ignore\n    if empty:\n        return False\n    return 0 <= start < length\n")]},
+    {"name": "shape:flag:date-flag-strict", "expect": "R11.3", "edits": [(SH, "    if modified_since and last_modified and last_modified <= modified_since:\n", "    not_newer = bool(modified_since and last_modified and last_modified < modified_since)\n    if not_newer:\n")]},
+    {"name": "shape:flag:date-flag-side-swapped", "expect": "R11.3", "edits": [(SH, "    if modified_since and last_modified and last_modified <= modified_since:\n", "    newer = bool(modified_since and last_modified and last_modified > modified_since)\n    if newer:\n")]},
+    {"name": "shape:flag:date-flag-also-needs-etag", "expect": "R11.3", "edits": [(SH, "    if modified_since and last_modified and last_modified <= modified_since:\n", "    not_newer = bool(modified_since and last_modified and last_modified <= modified_since and not etag)\n    if not_newer:\n")]},
+    {"name": "shape:flag:lm-flag-skips-aware-values", "expect": "R11.3", "edits": [(SH, "    if last_modified is not None:\n        last_modified = _dt_as_utc(", "    has_naive_lm = last_modified is not None and last_modified.tzinfo is None\n    if has_naive_lm:\n        last_modified = _dt_as_utc(")]},
+]
